@@ -41,7 +41,7 @@ theorem mergeIncludesRec_succ (fs : FS) (comments : Bool) (fuel : Nat) (ancestor
 theorem C06_cut_edge_cycle (fs : FS) (comments : Bool) (recur) (ancestors : List Comps) (dir : Comps) (acc : SD × Counter)
     (e : Nat × InclEntry) (h : ancestors.contains (resolveSpelled (spellJoin dir e.2.file)) = true) :
     inclStep fs comments recur ancestors dir acc e = pure acc := by
-  simp [inclStep, h]
+  simp only [inclStep, h, if_true]
 
 /-- an include whose target is not in the file system is skipped in the same way -/
 theorem C06_cut_edge_missing (fs : FS) (comments : Bool) (recur) (ancestors : List Comps) (dir : Comps) (acc : SD × Counter)
